@@ -410,11 +410,17 @@ class Characteristic:
         :return: A HAP representation.
         :rtype: dict
         """
+        # When the value is produced on demand (a getter callback, or a subclass
+        # overriding get_value) a representation containing it is never reused:
+        # it would still be served after the value has changed
+        live_value = bool(self.getter_callback) or (
+            type(self).get_value is not Characteristic.get_value
+        )
         # Read the cache slot once: another thread may clear it between a
         # test and a second read, and None must never be returned
         if include_value:
             cached = self._to_hap_cache_with_value
-            if cached is not None and not self.getter_callback:
+            if cached is not None and not live_value:
                 return cached
         else:
             cached = self._to_hap_cache
@@ -457,8 +463,8 @@ class Characteristic:
 
         if not include_value:
             self._to_hap_cache = hap_rep
-        elif not self.getter_callback:
-            # Only cache if there is no getter_callback
+        elif not live_value:
+            # Only cache if the value is not produced on demand
             self._to_hap_cache_with_value = hap_rep
             if HAP_REPR_VALUE in hap_rep and hap_rep[HAP_REPR_VALUE] is not self._value:
                 # The value was changed from another thread while the
